@@ -91,6 +91,20 @@ def eval_case(arg):
     return res
 
 
+def host_rejects(files) -> bool:
+    import ast
+
+    for name, text in files.items():
+        if name.endswith((".py", ".pyi")):
+            try:
+                ast.parse(text)
+            except SyntaxError:
+                return True
+            except ValueError:
+                return True
+    return False
+
+
 def is_syntax(d) -> bool:
     return d[7] == "syntax" or d[6].startswith(("invalid syntax", "Invalid syntax"))
 
@@ -105,6 +119,7 @@ def judge(run: Run, res, gen: str) -> None:
         if st not in (0, 1, 2) or "Traceback (most recent call last)" in err or "INTERNAL ERROR" in err or any("INTERNAL ERROR" in r for r in rest):
             # crashes belong to C20; here they only make the comparison impossible
             run.label("crashed_case_skipped(native=%s)" % native)
+            run.extra.setdefault("crash_leads_for_C20", []).append({"native": native, "gen": gen, "minor": minor, "main.py": files.get("main.py", "")[:3000], "flags": flags, "stderr_tail": err[-600:]})
             return
     dd, dn = o_d[1], o_n[1]
     # invariant on positions, both runs
@@ -132,6 +147,9 @@ def judge(run: Run, res, gen: str) -> None:
             allmsgs = " ".join(t[6] for t in dd + dn if is_syntax(t))
             if syn_d and syn_n and blocked_d and not blocked_n and ("only supported in Python 3" in allmsgs or "requires Python 3" in allmsgs):
                 sg = "accept-reject|version-gated-syntax-blocking-only-with-default-parser"
+            elif syn_d and blocked_d and ("you likely need to run mypy using Python 3" in allmsgs or (not syn_n and "corrupt" not in gen and host_rejects(files))):
+                # an UNcorrupted program (valid for its target) that the host interpreter's own parser cannot read
+                sg = "accept-reject|host-python-cannot-parse-newer-syntax"
             else:
                 sg = "accept-reject|only-%s-rejects|%s" % (which, cls)
             run.report(sg, case, "blocking syntax error only with the %s parser: default=%s native=%s" % (which, [t for t in dd if is_syntax(t)][:2], [t for t in dn if is_syntax(t)][:2]))
@@ -153,6 +171,11 @@ def judge(run: Run, res, gen: str) -> None:
             samemsg = {(t[0], t[4]) for t in only_d} == {(t[0], t[4]) for t in only_n}
             first = (only_d + only_n)[0]
             norm = re.sub(r"\"[^\"]*\"", "Q", first[4])[:70]
+            src_lines = file_lines(files.get(first[0], ""))
+            line_text = src_lines[first[1] - 1] if 0 < first[1] <= len(src_lines) else ""
+            if samemsg and any(ord(ch) > 127 for ch in line_text):
+                run.report("tuple|position-differs|non-ascii-line", case, "columns differ on a line with non-ASCII characters: only default: %s ; only native: %s" % (only_d[:2], only_n[:2]))
+                return
             sg = "tuple|%s|%s|only-%s|%s" % ("position-differs" if samemsg else "message-differs", ",".join(codes[:3]), "default" if only_d and not only_n else ("native" if only_n and not only_d else "both"), norm)
         run.report(sg, case, "diagnostics differ (python 3.%d): only default: %s ; only native: %s" % (minor, only_d[:3], only_n[:3]))
         return
